@@ -18,6 +18,8 @@
          hence live variables never collide; every allocation is above everything the SAT session
          has seen (clauses, assumed literals, reserve);
      (2') split_in_extension covers every live argument whatever the ids (D9);
+     (2'') certificates computed by a SAT call of the complete / stable solver are duplicate-free
+         lists of live arguments (D6's symptom), for any SAT answer;
      (3) cache (D10): a certificate served from the cache of the preferred solver is a NO
          certificate that omits the queried argument.
    NOT YET PROVED: the clause-set invariant (current assumptions + clause set == encoding of the
@@ -95,6 +97,28 @@ Theorem C08_split_covers_live_partial : forall (af : fw L) e cur ins outs id v,
   (memb id cur = true /\ In (zlit v) ins) \/ (memb id cur = false /\ In (zlit v) outs).
 Proof. exact (DynProofs.dyn_split_covers L). Qed.
 
+(* (2'') certificates (part of the C04 statement: NoDup, members are live arguments).  With no stale
+   argument entry in solver_vars, assignment_to_extension of the dynamic encoder returns ids of live
+   arguments, each once, for ANY assignment ... *)
+Theorem C08_extension_of_assignment_partial : forall (af : fw L) e m,
+  tables_ok L af e ->
+  (forall v id, nth_error (e_vars e) v = Some (VArg id) -> tbl_var (e_a2v e) id = Some v) ->
+  NoDup (dyn_a2e (e_vars e) m) /\
+  forall id, In id (dyn_a2e (e_vars e) m) -> has_argument_with_id L af id = true.
+Proof. exact (DynProofs.dyn_a2e_wf L). Qed.
+
+(* ... hence, after any history, every certificate that the dynamic complete / stable solver computes
+   by a SAT call (whenever the query changed the state, i.e. was not served from the cache) is a
+   duplicate-free list of ids of live arguments of the solver's current framework - whatever the SAT
+   solver answered.  (What a duplicate new_argument broke under D6: `DC b` returned a certificate
+   with a duplicated member.)  Cached certificates and the preferred solver's are not covered. *)
+Theorem C08_fresh_certificate_wellformed_partial :
+  forall k s os oracle thr fuel q cert l ps ps' s' b ext,
+  reach k s os -> (k = KCo \/ k = KSt) ->
+  dyn_query oracle L leqb thr fuel s q cert l ps = Done (s', (b, Some ext)) ps' ->
+  s' = s \/ (NoDup ext /\ forall id, In id ext -> has_argument_with_id L (s_af L s') id = true).
+Proof. exact (DynProofs.std_fresh_certificate_wf L leqb). Qed.
+
 (* (3) *)
 Theorem C08_preferred_cache_sound_partial : forall s os l b ext,
   reach KPr s os -> is_skep L leqb (s_buf L s) l = (Some b, Some ext) ->
@@ -119,4 +143,6 @@ Print Assumptions C08_allocation_fresh_partial.
 Print Assumptions C08_argument_allocation_partial.
 Print Assumptions C08_variables_positive_partial.
 Print Assumptions C08_split_covers_live_partial.
+Print Assumptions C08_extension_of_assignment_partial.
+Print Assumptions C08_fresh_certificate_wellformed_partial.
 Print Assumptions C08_preferred_cache_sound_partial.
